@@ -133,7 +133,7 @@ CLAIMS = {
                  "against the proxy's host with the proxy_config assertions; HTTPS pools dial the proxy; CONNECT targets the "
                  "bracket-preserving _tunnel_host and the pool's port; the manager passes the absolute URL iff proxy without tunnel, else "
                  "request_uri. Declined: bytes received by proxy and origin."
-                 " Inside a tunnel the origin handshake is verified with the connection's own assertions, never the proxy's; set_tunnel does not rewrite the recorded CONNECT target. A failed CONNECT exchange must count as a proxy failure whatever the proxy answered (C09-R13: a garbage or empty reply is raised as ProtocolError - F26a/b, known)."),
+                 " Inside a tunnel the origin handshake is verified with the connection's own assertions, never the proxy's; set_tunnel does not rewrite the recorded CONNECT target. A failed CONNECT exchange must count as a proxy failure whatever the proxy answered (C09-R13; found F26a/b - a garbage or empty reply was raised as ProtocolError - repaired)."),
         "note": _TRUST + "http.client's _tunnel()/set_tunnel are trusted for the CONNECT exchange itself. F11 (C04-R8, shared) is a known finding.",
         "technique": "static analysis: decision-table extraction, taint/provenance through abstract interpretation of the drivers, event-order typestate in connect()",
     },
